@@ -155,7 +155,11 @@ fn lru(mut seed: u64) {
             }
         }
     }
-    // two threads
+    // two threads (on an empty cache: the values below are told apart by their length)
+    while c.pop().is_some() {}
+    for k in 0..6u64 {
+        c.remove(&k);
+    }
     let c = Arc::new(c);
     let mut ts = Vec::new();
     for t in 0..2u64 {
